@@ -54,6 +54,14 @@ VARIANTS = {
                   flags=["-fsanitize=undefined", "-fno-sanitize-recover=undefined"],
                   link=["-fsanitize=undefined"], dsched=False),
     "tsan": dict(cxx="clang++", std="c++14", flags=["-fsanitize=thread"], link=["-fsanitize=thread"], dsched=False),
+    "rc": dict(cxx="clang++", std="c++14", flags=[], link=["-lrapidcheck"], dsched=False, norunner=True),
+    "rc17": dict(cxx="clang++", std="c++17", flags=[], link=["-lrapidcheck"], dsched=False, norunner=True),
+    "rcasan": dict(cxx="clang++", std="c++14",
+                   flags=["-fsanitize=address,undefined", "-fno-sanitize-recover=undefined"],
+                   link=["-fsanitize=address,undefined", "-lrapidcheck"], dsched=False, norunner=True),
+    "rcasan17": dict(cxx="clang++", std="c++17",
+                     flags=["-fsanitize=address,undefined", "-fno-sanitize-recover=undefined"],
+                     link=["-fsanitize=address,undefined", "-lrapidcheck"], dsched=False, norunner=True),
     "fuzz": dict(cxx="clang++", std="c++17",
                  flags=["-fsanitize=fuzzer-no-link,address,undefined", "-fno-sanitize-recover=undefined"],
                  link=["-fsanitize=fuzzer,address,undefined"], dsched=False, norunner=True),
